@@ -163,7 +163,10 @@ PlansFor(n, v) ==
 \* ValCap > 0 bounds the number of values per type (the heavier plan sets)
 \* (leaf types keep all their boundary values)
 ValuesOf(n) == IF TheMod.name = "VB" THEN BigValues(n) ELSE
-               LET cap == IF Resolve(RawEnv, TRef(n)).k \in {"SEQUENCE", "SET", "SEQOF", "SETOF"} THEN ValCap ELSE LeafCap
+               \* (the few time values differ in FORM, local / offset / accuracy / fraction: they are never capped)
+               LET RT == Resolve(RawEnv, TRef(n))
+                   cap == IF RT.k \in {"SEQUENCE", "SET", "SEQOF", "SETOF"} THEN ValCap
+                          ELSE IF RT.k = "STRING" /\ RT.st \in {"UTCTime", "GeneralizedTime"} THEN 0 ELSE LeafCap
                IN IF cap = 0 THEN Values(RawEnv, TRef(n), Depth) ELSE Spread(Values(RawEnv, TRef(n), Depth), cap)
 Init == \E n \in TypeNames : \E v \in ValuesOf(n) : \E p \in PlansFor(n, v) :
           InitSession([ty |-> n, val |-> v, plan |-> p])
